@@ -604,3 +604,110 @@ Proof.
   - intros q' Hq. rewrite Hcu in Hq. inversion Hq; subst q'. right. exact Pc.
   - intros c Hq Wc. rewrite Hcu in Hq. inversion Hq; subst c. destruct Wc.
 Qed.
+
+Lemma prcount0_rvals : forall k, prcount k = O -> rvals k = [] /\ forall m0 v, ~ In (IUnlock m0 (URet v)) k.
+Proof.
+  induction k as [|j k IH]; intro H; [split; [reflexivity|intros m0 v []]|].
+  rewrite prcount_cons in H. destruct (pr j) eqn:Ej; [discriminate H|]. destruct (IH H) as [A B].
+  split; [rewrite (rvals_cons j k), A, app_nil_r; destruct j; try reflexivity; destruct a; try reflexivity; discriminate Ej|].
+  intros m0 v [E|Hin]; [subst j; discriminate Ej|exact (B m0 v Hin)].
+Qed.
+
+Ltac oth E := cbn -[Nat.eqb]; unfold updN, th; cbn -[Nat.eqb]; unfold updN, th; rewrite ?Nat.eqb_refl;
+  repeat match goal with |- context [Nat.eqb ?a ?b] =>
+    let Y := fresh "Y" in destruct (Nat.eqb_spec a b) as [Y|Y]; [exfalso; first [exact (E Y)|exact (E (eq_sym Y))]|] end;
+  reflexivity.
+
+(** ** a return value is stored *)
+Lemma exec_uret_F : forall p st m t m0 v r st' ev,
+  CInv (core st) -> FRel p st m ->
+  tcont (thr st t) = IUnlock m0 (URet v) :: r -> exec_instr st t (IUnlock m0 (URet v)) r = (st', ev) ->
+  FRel p st' (fold_left m14r_step (evs t ev) m).
+Proof.
+  intros p st m t m0 v r st' ev I R Hc H.
+  destruct (f_own_ret _ _ _ R t m0 v) as [Nps Hrv]; [rewrite Hc; left; reflexivity|].
+  destruct (exec_instr_eff _ _ _ _ _ _ I Hc H) as [F _ _ _ _ _ _].
+  assert (Tro : forall u, u <> t -> tret (thr st' u) = tret (thr st u)) by (intros u Hu; eapply tret_other; eauto).
+  cbn [exec_instr exec_uact] in H. inversion H; subst st' ev; clear H.
+  assert (Pl : forall e, In e [EUnlock m0] -> f14_plain e) by (intros e [<-|[]]; exact Logic.I).
+  match goal with |- FRel p ?S' _ => set (st' := S') end.
+  assert (Hc' : tcont (thr st' t) = [] ++ r) by (unfold st'; thr_simpl).
+  assert (Tr' : tret (thr st' t) = v) by (unfold st'; thr_simpl).
+  assert (Pps : pps st' = pps st) by reflexivity.
+  assert (Sp : forall q, spend q (mcont st') = spend q (mcont st)).
+  { intro q. unfold mcont. destruct (Nat.eq_dec main t) as [E|E].
+    - rewrite E, Hc, Hc', (spend_cons q _ r). reflexivity.
+    - replace (thr st' main) with (thr st main); [reflexivity|]. unfold st'. oth E. }
+  assert (Cnt : forall c, tcur (thr st t) = Some c -> wcmd c -> prcount r = O /\ tret (thr st t) = RUnit).
+  { intros c Hcu Wc. destruct (f_pr _ _ _ R t c Hcu Wc) as [A B]. rewrite Hc, prcount_cons in A, B. cbn [pr] in A, B. split; [lia|apply B; lia]. }
+  apply (f_step_q p st st' m _ t _ r [] (tpipe (thr st t)) R (m14r_fplain_fold t _ m Pl) F Hc Hc').
+  - intros j [].
+  - intro q. rewrite Pps. repeat split; reflexivity.
+  - left. rewrite Pps. split; [reflexivity|]. split; [reflexivity|apply Sp].
+  - rewrite Pps. auto.
+  - exact Tro.
+  - intros _. reflexivity.
+  - intros q _. apply Sp.
+  - intros u W E. pose proof (f_ps _ _ _ R u W) as L. cbn zeta in L. rewrite E in L.
+    destruct (m14r_fplain_fold t [EUnlock m0] m Pl) as [M1 M2 M3 M4]. unfold dps in *. rewrite M1, M2, Pps, Sp.
+    assert (Rt : rtransit (thr st' u) = rtransit (thr st u)).
+    { destruct (Nat.eq_dec u t) as [->|Hu]; [|unfold rtransit; replace (thr st' u) with (thr st u); [reflexivity|unfold st'; cbn -[Nat.eqb]; unfold updN, th; cbn -[Nat.eqb]; unfold updN, th; rewrite ?Nat.eqb_refl; destruct (Nat.eqb_spec u t) as [Y|Y]; [exfalso; exact (Hu Y)|reflexivity]]].
+      unfold rtransit. rewrite Hc', Hc, Tr'. replace (tcur (thr st' t)) with (tcur (thr st t)) by (unfold st'; cbn -[Nat.eqb]; unfold updN, th; cbn -[Nat.eqb]; unfold updN, th; rewrite ?Nat.eqb_refl; reflexivity). cbn [app].
+      rewrite (rvals_cons _ r).
+      assert (Dv : (exists z, v = RVal z) \/ (forall z, v <> RVal z)) by (destruct v; try (right; intros; discriminate); left; eauto).
+      destruct Dv as [[z ->]|Nv].
+      - destruct (Hrv z eq_refl) as [Hcu _]. destruct (Cnt CRecv Hcu Logic.I) as [Z0 Z1]. destruct (prcount0_rvals r Z0) as [Z2 _].
+        rewrite Hcu, Z2, Z1. reflexivity.
+      - assert (E1 : rvals [IUnlock m0 (URet v)] = []) by (destruct v; try reflexivity; exfalso; eapply Nv; reflexivity). rewrite E1. cbn [app].
+        assert (E2 : match tcur (thr st t), v with Some CRecv, RVal z => [z] | _, _ => [] end = @nil Z).
+        { destruct (tcur (thr st t)) as [c|]; [|reflexivity]. destruct c; try reflexivity. destruct v; try reflexivity. exfalso. eapply Nv. reflexivity. }
+        assert (E3 : match tcur (thr st t), tret (thr st t) with Some CRecv, RVal z => [z] | _, _ => [] end = @nil Z).
+        { destruct (tcur (thr st t)) as [c|] eqn:Hcu; [|reflexivity]. destruct c; try reflexivity. destruct (Cnt CRecv eq_refl Logic.I) as [_ Z1]. rewrite Z1. reflexivity. }
+        rewrite E2, E3. reflexivity. }
+    rewrite Rt. exact L.
+  - intros c W L Hcu. rewrite Tr'. apply (proj2 (f_ok _ _ _ R t c W L Hcu) m0 v). rewrite Hc. left. reflexivity.
+  - intros q x Hcu. exfalso. exact (Nps q x Hcu).
+  - intros q Hcu. rewrite Pps.
+    assert (Np : p <> FDropBad t q) by (intro E; destruct (f_pdrop _ _ _ R t q E) as [_ Z0]; rewrite Hc in Z0; discriminate Z0).
+    destruct (f_dropcmd _ _ _ R t q Hcu Np) as [[m1 A]|A]; [|right; exact A]. left. exists m1. rewrite Hc in A. destruct A as [A|A]; [discriminate A|exact A].
+  - intros c Hcu Wc. destruct (Cnt c Hcu Wc) as [Z0 _]. rewrite Z0. split; [lia|intro Y; lia].
+Qed.
+
+(** the return value of a channel [send] is stored *)
+Lemma exec_uchpush_F : forall p st m t m0 c x r st' ev,
+  CInv (core st) -> ShInv st -> FRel p st m ->
+  tcont (thr st t) = IUnlock m0 (UChPush c x) :: r -> exec_instr st t (IUnlock m0 (UChPush c x)) r = (st', ev) ->
+  FRel p st' (fold_left m14r_step (evs t ev) m).
+Proof.
+  intros p st m t m0 c x r st' ev I S R Hc H.
+  assert (Hcu : tcur (thr st t) = Some (CSend c x)) by (apply (sh_own_push st S t m0 c x); rewrite Hc; left; reflexivity).
+  destruct (exec_instr_eff _ _ _ _ _ _ I Hc H) as [F _ _ _ _ _ _].
+  assert (Tro : forall u, u <> t -> tret (thr st' u) = tret (thr st u)) by (intros u Hu; eapply tret_other; eauto).
+  cbn [exec_instr exec_uact] in H. inversion H; subst st' ev; clear H.
+  assert (Pl : forall e, In e [EUnlock m0] -> f14_plain e) by (intros e [<-|[]]; exact Logic.I).
+  match goal with |- FRel p ?S' _ => set (st' := S') end.
+  assert (Hc' : tcont (thr st' t) = [] ++ r) by (unfold st'; thr_simpl).
+  assert (Pps : pps st' = pps st) by reflexivity.
+  assert (Sp : forall q, spend q (mcont st') = spend q (mcont st)).
+  { intro q. unfold mcont. destruct (Nat.eq_dec main t) as [E|E].
+    - rewrite E, Hc, Hc', (spend_cons q _ r). reflexivity.
+    - replace (thr st' main) with (thr st main); [reflexivity|]. unfold st'. oth E. }
+  apply (f_step_q p st st' m _ t _ r [] (tpipe (thr st t)) R (m14r_fplain_fold t _ m Pl) F Hc Hc').
+  - intros j [].
+  - intro q. rewrite Pps. repeat split; reflexivity.
+  - left. rewrite Pps. split; [reflexivity|]. split; [reflexivity|apply Sp].
+  - rewrite Pps. auto.
+  - exact Tro.
+  - intros _. reflexivity.
+  - intros q _. apply Sp.
+  - intros u W E. pose proof (f_ps _ _ _ R u W) as L. cbn zeta in L. rewrite E in L.
+    destruct (m14r_fplain_fold t [EUnlock m0] m Pl) as [M1 M2 M3 M4]. unfold dps in *. rewrite M1, M2, Pps, Sp.
+    assert (Rt : rtransit (thr st' u) = rtransit (thr st u)).
+    { destruct (Nat.eq_dec u t) as [->|Hu]; [|unfold rtransit; replace (thr st' u) with (thr st u); [reflexivity|unfold st'; oth Hu]].
+      unfold rtransit. rewrite Hc', Hc. replace (tcur (thr st' t)) with (tcur (thr st t)) by (unfold st'; cbn -[Nat.eqb]; unfold updN, th; cbn -[Nat.eqb]; unfold updN, th; rewrite ?Nat.eqb_refl; reflexivity). rewrite Hcu. cbn [app]. rewrite (rvals_cons _ r). reflexivity. }
+    rewrite Rt. exact L.
+  - intros c0 W L Hq. exfalso. destruct (f_late_cur _ _ _ R t L) as [c1 [E1 W1]]. rewrite Hcu in E1. inversion E1; subst c1. destruct W1.
+  - intros q x0 Hq. rewrite Hcu in Hq. discriminate Hq.
+  - intros q Hq. rewrite Hcu in Hq. discriminate Hq.
+  - intros c0 Hq Wc. rewrite Hcu in Hq. inversion Hq; subst c0. destruct Wc.
+Qed.
